@@ -313,7 +313,10 @@ func (g *gen) loopHeader(b *ssa.BasicBlock, li *loopInfo, in State, rc string) (
 		e.atBlock = b
 		t, err := g.elabBool(cl.E, e)
 		if err != nil {
-			g.contractError(cl, err)
+			// An invariant that cannot be stated for this loop any more (it names a variable the loop no longer
+			// has) is DROPPED, never assumed: what it used to carry is then missing and the obligations that
+			// relied on it fail, instead of the whole function going stale.
+			g.ctx.note(fmt.Sprintf("loop %d invariant %s of %s dropped: %v", li.ordinal, cl.Label, g.fnKey, err))
 			continue
 		}
 		g.obligeClause("invariant", fmt.Sprintf("%s.loop%d.inv.%s.entry", g.fnKey, li.ordinal, cl.Label), cl, rc, t)
